@@ -66,6 +66,13 @@ func gen(t *rapid.T) pairsim.Scenario {
 	ps := rapid.SampledFrom([]int{2, 3, 4, 8}).Draw(t, "pool")
 	sc.Cli = pairsim.EndCfg{SZX: rapid.IntRange(0, 6).Draw(t, "cszx"), Blockwise: bw, Queue: rapid.SampledFrom([]int{0, 1, 16}).Draw(t, "cq"), PoolSize: ps, AckTimeoutMs: 300, MaxRetransmit: rapid.IntRange(0, 3).Draw(t, "cmr"), Limit: rapid.SampledFrom([]int{1, 16}).Draw(t, "limit"), BwTimeoutMs: rapid.SampledFrom([]int{500, 3000}).Draw(t, "bwt")}
 	sc.Srv = pairsim.EndCfg{SZX: rapid.IntRange(0, 6).Draw(t, "sszx"), Blockwise: bw, Queue: rapid.SampledFrom([]int{0, 1, 16}).Draw(t, "sq"), PoolSize: ps, AckTimeoutMs: 300, MaxRetransmit: 2, BwTimeoutMs: 1000}
+	// either endpoint may be a connection created by a server (dtls.NewServer / tcp.NewServer)
+	if rapid.IntRange(0, 2).Draw(t, "srvrole") == 0 {
+		sc.Srv.Role = "server"
+	}
+	if rapid.IntRange(0, 3).Draw(t, "clirole") == 0 {
+		sc.Cli.Role = "server"
+	}
 	if sc.Transport == "tcp" {
 		sc.Cli.MaxMsg, sc.Srv.MaxMsg = 70000, 70000
 		sc.Stream = memnet.StreamCfg{SegsAB: rapid.SliceOfN(rapid.IntRange(1, 300), 0, 3).Draw(t, "segs")}
